@@ -482,19 +482,41 @@ def probe_signature(db, f):
             for key in (start[0], step[0]):
                 sb.env[("local", key)] = ("local", key)
             num = symx.poly(sb.sym(r["lhs"]))
-            adv.append((w, tgt, num, tp[-1] if tp else None, r))
+            adv.append((w, tgt, num, tp[-1] if tp else None, r, f))
+        elif r["k"] == "CallExpr" and r.get("f") in db.funcs and tgt is not None:
+            # the advance factored into a one-expression helper:  cell = probe(h, s, i, T)  with  return (h + i*s) % T;
+            h = db.funcs[r["f"]]
+            rets = [n for n in h.live_nodes() if n["k"] == "ReturnStmt" and n.get("value") is not None]
+            stmts = h.body.get("c", []) if h.body and h.body["k"] == "CompoundStmt" else []
+            if len(rets) != 1 or len(stmts) != 1:
+                continue
+            hv = strip(rets[0]["value"])
+            if hv["k"] != "BinaryOperator" or hv["op"] != "%":
+                continue
+            sb = SeqBuilder(db, f, "c", nosubst=True)
+            sb.mode = "x"
+            for key in (start[0], step[0]):
+                sb.env[("local", key)] = ("local", key)
+            hsb = SeqBuilder(db, h, "c", nosubst=True)
+            hsb.mode = "x"
+            for i, a in enumerate(r.get("args", [])):
+                hsb.env[("param", i)] = sb.sym(a)
+            num = symx.poly(hsb.sym(hv["lhs"]))
+            mp = access_path(h, hv["rhs"])
+            tp = resolved_path(f, r["args"][mp[1]]) if mp and mp[0] == "param" and len(mp) == 2 and mp[1] < len(r.get("args", [])) else None
+            adv.append((w, tgt, num, tp[-1] if tp else None, hv, h))
     if not adv:
         return None, ["no probe advance statement"]
     kinds_ = []
-    for w, tgt, num, m, r in adv:
+    for w, tgt, num, m, r, rf in adv:
         if m != "tsize":
             probs.append("probe advance at line %s is reduced modulo something other than the table size" % w.get("l"))
         # every product in the advance is computed at the width of the modulus (i * step must not wrap at 32 bits while the
         # insert that placed the string computed it in size_t)
-        mt = f.type(r["rhs"])
+        mt = rf.type(r["rhs"])
         for x in walk(r["lhs"]):
             if x["k"] == "BinaryOperator" and x["op"] == "*":
-                xt = f.type(x)
+                xt = rf.type(x)
                 if mt and xt and (xt.get("bits") or 0) < (mt.get("bits") or 0):
                     probs.append("the product at line %s is computed in %d bits although the table size is a %d-bit quantity: it wraps for large "
                                  "tables and the lookup leaves the probe sequence the insert followed" % (x.get("l"), xt.get("bits") or 0, mt.get("bits") or 0))
@@ -525,15 +547,17 @@ def probe_signature(db, f):
                                 elif not (w2.get("op") == "="):
                                     other_w.append(w2)
                         in_loop = lambda x: any(y is x for y in walk(loop.get("body") or loop)) or (loop.get("inc") is not None and any(y is x for y in walk(loop["inc"])))
-                        if len(inits) == 1 and const_value(inits[0][0]) == 1 and not in_loop(inits[0][1]) and len(incs) == 1 and in_loop(incs[0]) and not other_w:
+                        # i = 1.. after a separate look at the home cell, or i = 0.. with the home cell visited by the loop itself
+                        # (h + 0*s = h); which of the two applies is settled by the count of cells examined below
+                        if len(inits) == 1 and const_value(inits[0][0]) in (0, 1) and not in_loop(inits[0][1]) and len(incs) == 1 and in_loop(incs[0]) and not other_w:
                             ok = True
             if ok:
-                kinds_.append("closed form (h+i*s)%T, i=1..")
+                kinds_.append("closed form (h+i*s)%T, i=0/1..")
             else:
                 probs.append("probe advance at line %s is neither h=(h+s)%%T nor (h+i*s)%%T with i=1,2,.." % w.get("l"))
     # number of cells examined: (occupancy tests of the probe cell before the loop) + (loop trips) x (tests per round) must reach
     # the table size, otherwise a key whose free cell is the last one of its probe sequence is reported "table full" / not found
-    probe_vars = {("local", start[0])} | {tgt for w, tgt, num, m, r in adv if tgt is not None}
+    probe_vars = {("local", start[0])} | {tgt for w, tgt, num, m, r, rf in adv if tgt is not None}
     def is_cell_test(n):
         if n["k"] != "IfStmt" or n.get("cond") is None:
             return False
@@ -626,6 +650,33 @@ def r_bucket(db, rep):
                 for d in n["decls"]:
                     if d.get("init") is not None and any(x["k"] == "DeclRefExpr" and x.get("dk") == "param" and x.get("pi") == 0 for x in walk(d["init"])):
                         got[d["n"]] = (canon(sb.sym(d["init"])), n)
+        # the decomposition factored into a helper that receives the id: its assignments (also through out-parameters), with the
+        # helper's parameter standing for the id
+        for cl in f.calls():
+            h = db.funcs.get(cl.get("f"))
+            if h is None or h.body is None:
+                continue
+            obj = cl.get("obj")
+            if obj is not None and strip(obj)["k"] != "CXXThisExpr":
+                continue
+            for j, a in enumerate(cl.get("args", [])):
+                sa = strip(a)
+                if not (sa["k"] == "DeclRefExpr" and sa.get("dk") == "param" and sa.get("pi") == 0):
+                    continue
+                hsb = SeqBuilder(db, h, "c", nosubst=True)
+                hsb.env[("param", j)] = ("param", 0)
+                for n in h.live_nodes():
+                    e = None
+                    if n["k"] == "DeclStmt":
+                        for d in n["decls"]:
+                            if d.get("init") is not None:
+                                e = d["init"]
+                                if any(x["k"] == "DeclRefExpr" and x.get("dk") == "param" and x.get("pi") == j for x in walk(e)):
+                                    got["%s:%s" % (h.name, d["n"])] = (canon(hsb.sym(e)), n)
+                    elif is_assignment(n) and n.get("op") == "=" and n.get("rhs") is not None:
+                        e = n["rhs"]
+                        if any(x["k"] == "DeclRefExpr" and x.get("dk") == "param" and x.get("pi") == j for x in walk(e)):
+                            got["%s:%s" % (h.name, n.get("l"))] = (canon(hsb.sym(e)), n)
         rep.inst(f.loc, "%s: id -> (bucket, offset)" % f.qn)
         rep.ob()
         if not any(v[0] == want_b for v in got.values()):
